@@ -102,8 +102,8 @@ def main(tier):
                 RP.instance()
                 b = u.elf.sym_extent('poly')
                 RP.check(len(b) >= 16 and set(b[:16]) == {0x1d}, '%s:poly' % u.name, 'reduction constant bytes %s, expected 0x1d replicated' % b[:16].hex(), sample='%s poly = 1d x16' % sym if sym == 'pq_gen_sse' else None)
-    provenance.check_undef(rep, {'raid_xor_gen', 'raid_pq_gen', 'raid_xor_check', 'raid_pq_check'}, 'RAID', 9)
-    provenance.check_kwidth(rep, {'raid_xor_gen', 'raid_pq_gen', 'raid_xor_check', 'raid_pq_check'}, 'RAID', 9)
+    rep.attempt(provenance.check_undef, rep, {'raid_xor_gen', 'raid_pq_gen', 'raid_xor_check', 'raid_pq_check'}, 'RAID', 9)
+    rep.attempt(provenance.check_kwidth, rep, {'raid_xor_gen', 'raid_pq_gen', 'raid_xor_check', 'raid_pq_check'}, 'RAID', 9)
     # portable C: the SWAR constants of pq_gen_base / pq_check_base, evaluated by the compiler
     import mirror
     v, drop = mirror.c_values('default', [__import__('common').REPO + '/raid/raid_base.c'], [('gf8poly', 'gf8poly'), ('bit7', 'bit7'), ('notbit0', 'notbit0'), ('w', 'sizeof(unsigned long)')], 'raidpoly')
@@ -115,18 +115,21 @@ def main(tier):
     RP.check((v['gf8poly'] & (2 ** (8 * w) - 1)) == rep_byte(0x1d) and (v['bit7'] & (2 ** (8 * w) - 1)) == rep_byte(0x80) and (v['notbit0'] & (2 ** (8 * w) - 1)) == rep_byte(0xfe),
              'raid/raid_base.c:gf8poly/bit7/notbit0', 'SWAR constants are %#x/%#x/%#x, expected 0x1d/0x80/0xfe replicated over %d bytes' % (v['gf8poly'], v['bit7'], v['notbit0'], w),
              sample='gf8poly = 0x1d x%d' % w)
-    check_base_exits(rep)
+    rep.attempt(check_base_exits, rep)
     import bounds
-    bounds.check_src_cover(rep, 22)
-    bounds.check(rep, {'raid_pq_gen', 'raid_pq_check'}, 'RAID', 5)
+    rep.attempt(bounds.check_src_cover, rep, 22)
+    rep.attempt(bounds.check, rep, {'raid_pq_gen', 'raid_pq_check'}, 'RAID', 5)
     import horner
-    horner.check(rep, 68)
+    rep.attempt(horner.check, rep, 68)
     import raidlayout
-    raidlayout.check(rep, 4)
+    rep.attempt(raidlayout.check, rep, 4)
     import baseloops
-    baseloops.check(rep, 'RAID', ['xor_gen_base', 'pq_gen_base'], 4)
+    rep.attempt(baseloops.check, rep, 'RAID', ['xor_gen_base', 'pq_gen_base'], 4)
     import stridecover
-    stridecover.check(rep, 'RAID', {'raid_xor_gen', 'raid_pq_gen', 'raid_xor_check', 'raid_pq_check'}, 80)
+    rep.attempt(stridecover.check, rep, 'RAID', {'raid_xor_gen', 'raid_pq_gen', 'raid_xor_check', 'raid_pq_check'}, 80)
+    import tailguard, earlypass
+    rep.attempt(tailguard.check, rep, 'PQ', {'raid_pq_gen', 'raid_pq_check'}, 8, None)
+    rep.attempt(earlypass.check, rep, 'RAID', {'raid_xor_gen', 'raid_pq_gen', 'raid_xor_check', 'raid_pq_check'}, 9)
     return rep.finish()
 
 
